@@ -17,7 +17,7 @@ PROP = 'C12'
 MANIFEST = dict(
     category='exploration', design_ref='DESIGN.md §3 C12',
     technique='bounded-exhaustive enumeration of (lexicon, expand lexicon) pairs with partially overlapping ILIs x expand settings on the real query layer vs a reference model of ILI-mediated relation borrowing',
-    text='Every lexicon L with up to 2 (thorough: 3) synsets whose ILIs range over {i1, i2, none, proposed} and whose own hypernym relations range over subsets of the ordered pairs is paired with every expand lexicon E of 3 synsets (ILI patterns with unique, repeated and missing ILIs; every subset of the 6 possible hypernym edges; thorough: a second expand lexicon E2). For each synset of L and each expand setting (disabled, explicit E, explicit "E E2", default) relations(), get_related(), relation_map(), hypernyms() and hypernym_paths() are compared with the reference: own relations first, then for each E-synset sharing the ILI its relations with targets mapped to the L-synsets of the target ILI or to an *INFERRED* placeholder carrying that ILI, ILI-less targets dropped, Relation objects keeping E\'s source/target/lexicon; paths through chains of placeholders included. A separate configuration space checks expanded_lexicons() and the WnWarning for every combination of declared / undeclared and installed / missing dependencies in restricted and unrestricted mode.',
+    text='Every lexicon L with up to 2 (thorough: 3) synsets whose ILIs range over {i1, i2, none, proposed} and whose own hypernym relations range over subsets of the ordered pairs is paired with every expand lexicon E of 3 synsets (ILI patterns with unique, repeated and missing ILIs; every subset of the 6 possible hypernym edges; thorough: a second expand lexicon E2). For each synset of L and each expand setting (disabled, explicit E, explicit "E E2", default) relations(), get_related(), relation_map(), hypernyms(), hypernym_paths() and closure() are compared with the reference: own relations first, then for each E-synset sharing the ILI its relations with targets mapped to the L-synsets of the target ILI or to an *INFERRED* placeholder carrying that ILI, ILI-less targets dropped, Relation objects keeping E\'s source/target/lexicon; paths through chains of placeholders included, and every placeholder met is itself queried (get_related, hypernym_paths, closure) against the same rule. A separate configuration space checks expanded_lexicons() and the WnWarning for every combination of declared / undeclared and installed / missing dependencies in restricted and unrestricted mode.',
     note='Order is compared only for "own relations before borrowed ones". Two *INFERRED* placeholders are distinguished by their ILI.',
 )
 
@@ -114,6 +114,16 @@ class Ref:
         return sorted(out, key=repr)
 
 
+def _reach(ref, start):
+    seen, todo = [], [start]
+    while todo:
+        for _, t in ref.step(todo.pop()):
+            if t not in seen:
+                seen.append(t)
+                todo.append(t)
+    return seen
+
+
 def node_of(ss, lid):
     if ss.id == '*INFERRED*':
         return ('INF', ili_of(ss))
@@ -167,6 +177,32 @@ def observe_synset(w, lid, k, ref, V, tag, g, obs):
         obs.append(repr(gp))
         if gp != ref.paths(('L', k)):
             bad('hypernym_paths:differs', f'{lid}-{k}.hypernym_paths() = {gp} expected {ref.paths(("L", k))}')
+        # the placeholders met on the way are synsets in their own right: their relations follow the same
+        # rule (the E-synsets sharing their ILI), and so do paths and closures starting from them
+        inf = {}
+        for pth in v:
+            for t in pth:
+                if t.id == '*INFERRED*':
+                    inf.setdefault(node_of(t, lid), t)
+        for nd, t in sorted(inf.items()):
+            st2, v2 = budget.call(t.get_related, budget=2000)
+            exp_t = sorted({repr(y) for _, y in ref.step(nd)})
+            if st2 != 'ok' or sorted({repr(node_of(y, lid)) for y in v2}) != exp_t:
+                bad('placeholder:get_related', f'{lid}-{k}: placeholder {nd}.get_related() -> {v2!r} expected {exp_t}')
+            st2, v2 = budget.call(t.hypernym_paths, budget=4000)
+            gp2 = sorted((tuple(node_of(y, lid) for y in p) for p in v2), key=repr) if st2 == 'ok' else v2
+            if gp2 != ref.paths(nd):
+                bad('placeholder:hypernym_paths', f'{lid}-{k}: placeholder {nd}.hypernym_paths() = {gp2!r} expected {ref.paths(nd)}')
+            st2, v2 = budget.call(lambda: list(t.closure('hypernym')), budget=4000)
+            gc2 = sorted((node_of(y, lid) for y in v2), key=repr) if st2 == 'ok' else v2
+            if gc2 != sorted(_reach(ref, nd), key=repr):
+                bad('placeholder:closure', f'{lid}-{k}: placeholder {nd}.closure() = {gc2!r} expected {sorted(_reach(ref, nd), key=repr)}')
+    # closure over own + borrowed relations: every reachable synset (placeholders by ILI) exactly once
+    st, v = budget.call(lambda: list(x.closure('hypernym')), budget=4000)
+    gc = sorted((node_of(y, lid) for y in v), key=repr) if st == 'ok' else v
+    obs.append(repr(gc))
+    if gc != sorted(_reach(ref, ('L', k)), key=repr):
+        bad('closure:differs', f'{lid}-{k}.closure(hypernym) = {gc!r} expected {sorted(_reach(ref, ("L", k)), key=repr)}')
 
 
 def check_pairs(case):
